@@ -268,7 +268,9 @@ Section AreaConfig.
     (* _make_area *)
     match r with
     | Err => Raised
-    | Ok (Some e, Some s, _) => Area e s
+    | Ok (Some e, Some s, _) =>
+      (* AreaDefinition.__init__ divides the extent by width and height: ZeroDivisionError *)
+      if (fst s =? 0) || (snd s =? 0) then Raised else Area e s
     | Ok (e, s, d) => Dynamic e s d
     end.
 End AreaConfig.
